@@ -1008,6 +1008,32 @@ fn insert_path(rng: &mut Rng, node: &mut GJ, steps: &[GStep], leaf: GJ, dup: boo
     }
 }
 
+/// like `insert_path`, but with the container kinds confused: where the path has an index step the document has an
+/// OBJECT whose member is named by the index ("2": …), where it has a field step the document (sometimes) has an array —
+/// the addressed value is then absent (an index addresses arrays only, a field objects only)
+fn insert_path_confused(rng: &mut Rng, node: &mut GJ, steps: &[GStep], leaf: GJ) {
+    if steps.is_empty() { *node = leaf; return; }
+    match &steps[0] {
+        GStep::Index(i) => {
+            let mut child = GJ::Raw("null".into());
+            insert_path_confused(rng, &mut child, &steps[1..], leaf);
+            let mut kvs = vec![(i.to_string(), child)];
+            if rng.chance(1, 2) { kvs.push(("other".into(), scalar_of_wrong_type(rng))); }
+            *node = GJ::Obj(kvs);
+        }
+        GStep::Field(f) => {
+            let mut child = GJ::Raw("null".into());
+            insert_path_confused(rng, &mut child, &steps[1..], leaf);
+            if rng.chance(1, 3) {
+                *node = GJ::Arr(vec![child]);
+            } else {
+                if !matches!(node, GJ::Obj(_)) { *node = GJ::Obj(Vec::new()); }
+                if let GJ::Obj(kvs) = node { kvs.push((f.clone(), child)); }
+            }
+        }
+    }
+}
+
 /// a line for a table with JSON columns
 pub fn json_line(rng: &mut Rng, td: &TableDefinition) -> (String, String) {
     let jcols: Vec<&ColumnDefinition> = td.columns.iter().filter(|c| matches!(c.parsing, ColumnParsing::Json(_))).collect();
@@ -1025,6 +1051,11 @@ pub fn json_line(rng: &mut Rng, td: &TableDefinition) -> (String, String) {
                 let leaf = scalar_of_wrong_type(rng);
                 insert_path(rng, &mut root, &steps[..cutat], leaf, false);
                 class.push_str("-cutpath");
+            }
+            3 if steps.iter().any(|st| matches!(st, GStep::Index(_))) => {                // object where the path has an index step
+                let leaf = leaf_for(rng, c);
+                insert_path_confused(rng, &mut root, &steps, leaf);
+                class.push_str("-confused");
             }
             2 => {                                                                        // duplicate key: the last one wins
                 let first = scalar_of_wrong_type(rng);
